@@ -88,6 +88,8 @@ Nest(name, inp) ==
     [] name = "fos_rep_failed" -> One(Repeat(FoS(inp, ShouldFailDefault), "failed"))
     \* Tee(leaf, discard::Stats(leaf)): both get everything; stats = max = left's
     [] name = "tee" -> [leaves |-> <<inp, inp>>, stats |-> StatsMax(LeafStats(inp), ZeroStats)]
+    \* the discarded side on the left: the maximum is the right one's
+    [] name = "tee_left_discarded" -> [leaves |-> <<inp, inp>>, stats |-> StatsMax(ZeroStats, LeafStats(inp))]
     [] name = "tee_rep" ->
          LET l1 == Repeat(inp, "failed")   l2 == Repeat(inp, "skipped") IN
          [leaves |-> <<l1, l2>>, stats |-> StatsMax(LeafStats(l1), LeafStats(l2))]
@@ -104,5 +106,5 @@ Nest(name, inp) ==
           stats |-> StatsSum(LeafStats(OrSide(inp, TRUE)), ZeroStats)]
 
 Nestings == {"fos", "fos_custom", "rep_skipped", "rep_failed", "rep_custom", "fos_rep_failed",
-             "tee", "tee_rep", "tee_discard", "or", "or_discard_stats"}
+             "tee", "tee_left_discarded", "tee_rep", "tee_discard", "or", "or_discard_stats"}
 =============================================================================
